@@ -101,6 +101,32 @@ class NumericMixin:
     c = self.truth(a[0])
     return self.ite(c, a[1], a[2])
 
+  def np_min(self, it, a, k):
+    """np.min over a tuple of (pointwise) operands: elementwise minimum, NaN propagates (A3)."""
+    if isinstance(a[0], (VTuple, VList)):
+      return self._minmax([a[0]], {}, True)
+    raise Unsupported('np.min (reduction over an array axis)')
+
+  def np_max(self, it, a, k):
+    if isinstance(a[0], (VTuple, VList)):
+      return self._minmax([a[0]], {}, False)
+    raise Unsupported('np.max (reduction over an array axis)')
+
+  def np_nanmin(self, it, a, k):
+    """np.nanmin over a tuple of operands: NaN operands are ignored (NaN only when all are NaN)."""
+    return self._nanminmax(a, True)
+
+  def np_nanmax(self, it, a, k):
+    return self._nanminmax(a, False)
+
+  def _nanminmax(self, a, is_min):
+    if not isinstance(a[0], (VTuple, VList)) or len(a[0].items) != 2:
+      raise Unsupported('np.nanmin/nanmax (reduction)')
+    x, y = (self.to_real(v) for v in a[0].items)
+    c = (y.t < x.t) if is_min else (y.t > x.t)
+    both = z3.If(c, y.t, x.t)
+    return VReal(z3.If(x.nan, y.t, z3.If(y.nan, x.t, both)), z3.And(x.nan, y.nan))
+
   def np_minimum(self, it, a, k):
     return self._minmax(a, k, True)
 
